@@ -785,7 +785,9 @@ func (ex *Exec) rangeInit(fr *frame, in *ssa.Range) Value {
 			for _, e := range a.M.Entries {
 				it.keys = append(it.keys, e.K)
 			}
-			it.keys = ex.X.permute(it.keys)
+			if ex.X.PermuteIn[fr.fn.Name()] {
+				it.keys = ex.X.permute(it.keys)
+			}
 		}
 		return it
 	}
